@@ -495,7 +495,7 @@ func plantNumeric(r *rng.R, p *Prog, g *gen) string {
 		return label
 	}
 	// one planted defect that the compiler must reject
-	kind := r.Intn(20)
+	kind := r.Intn(22)
 	switch {
 	case kind == 0 && len(structs) > 0:
 		s := structs[r.Intn(len(structs))]
@@ -710,6 +710,45 @@ func plantNumeric(r *rng.R, p *Prog, g *gen) string {
 			f.Defs = append(f.Defs, &Def{Kind: 'S', SKind: 's', Name: g.name("S"), Fields: []*Field{{ID: i64p(1), Name: g.name("f"), Req: 'o', Ty: &TExpr{Kind: ty}, Dflt: ref}}})
 		}
 		label = "enum item outside the integer type it is used as"
+	case kind == 20:
+		// a struct literal that gives one field twice: one of the values would survive, the other
+		// (here sometimes outside the i8 / i16 of the field) would never be checked
+		f := p.Files[r.Intn(len(p.Files))]
+		ty := []string{"i8", "i16", "i32"}[r.Intn(3)]
+		b := intBounds[ty]
+		sn, fn := g.name("S"), g.name("f")
+		first := []int64{1, b[1] + 1, b[0] - 1, 0}[r.Intn(4)]
+		sd := &Def{Kind: 'S', SKind: 's', Name: sn, Fields: []*Field{{ID: i64p(1), Name: fn, Req: 'o', Ty: &TExpr{Kind: ty}}}}
+		lit := &CV{Kind: 'm', M: [][2]*CV{{{Kind: 's', S: fn}, {Kind: 'i', I: first}}, {{Kind: 's', S: fn}, {Kind: 'i', I: 1}}}}
+		f.Defs = append(f.Defs, sd, &Def{Kind: 'C', Name: g.name("c"), Ty: &TExpr{Kind: "ref", Name: sn, Target: sd}, Val: lit})
+		label = "struct literal that gives a field twice"
+	case kind == 21:
+		// a default that is needed, by omission from a literal, while it is itself being linked:
+		// struct S {1: optional S f = {}}, or constants a = {} (of Outer, whose field defaults to b) and
+		// b = {"back": a} (of Inner)
+		f := p.Files[r.Intn(len(p.Files))]
+		if r.Bool() {
+			sn := g.name("Self")
+			sd := &Def{Kind: 'S', SKind: 's', Name: sn}
+			sd.Fields = []*Field{{ID: i64p(1), Name: g.name("f"), Req: 'o', Ty: &TExpr{Kind: "ref", Name: sn, Target: sd}, Dflt: &CV{Kind: 'm'}}}
+			f.Defs = append(f.Defs, sd)
+		} else {
+			on, in, an, bn := g.name("Outer"), g.name("Inner"), g.name("c"), g.name("c")
+			od := &Def{Kind: 'S', SKind: 's', Name: on}
+			id := &Def{Kind: 'S', SKind: 's', Name: in}
+			ad := &Def{Kind: 'C', Name: an, Ty: &TExpr{Kind: "ref", Name: on, Target: od}, Val: &CV{Kind: 'm'}}
+			bd := &Def{Kind: 'C', Name: bn, Ty: &TExpr{Kind: "ref", Name: in, Target: id}}
+			bd.Val = &CV{Kind: 'm', M: [][2]*CV{{{Kind: 's', S: "back"}, {Kind: 'r', R: an, Target: ad}}}}
+			od.Fields = []*Field{{ID: i64p(1), Name: "inner", Req: 'o', Ty: &TExpr{Kind: "ref", Name: in, Target: id}, Dflt: &CV{Kind: 'r', R: bn, Target: bd}}}
+			id.Fields = []*Field{{ID: i64p(1), Name: "back", Req: 'o', Ty: &TExpr{Kind: "ref", Name: on, Target: od}}}
+			defs := []*Def{od, id, ad, bd}
+			for i := len(defs) - 1; i > 0; i-- {
+				j := r.Intn(i + 1)
+				defs[i], defs[j] = defs[j], defs[i]
+			}
+			f.Defs = append(f.Defs, defs...)
+		}
+		label = "default needed while it is being linked"
 	case kind == 10:
 		f := p.Files[r.Intn(len(p.Files))]
 		if len(f.Defs) > 0 {
@@ -786,7 +825,7 @@ func runC09(c *checker, r *rng.R) {
 		c09Program(c, p, "generated", "")
 	}
 	c.flush()
-	c.rep.Rule = "programs whose numeric literals sit around every type boundary (0, ±1, ±2^7, ±2^15, ±2^31, ±2^63 and neighbours; decimal, +signed, zero-padded decimal and hex spellings): field identifiers explicit / unset (auto-negative in non-strict mode), enum values explicit / implicit, integer constants and defaults of i8/i16/i32/i64/double/bool/enum types (also inside lists, maps, struct literals, through typedefs), strict and non-strict mode; 40% carry one planted defect the compiler must reject (identifier above 32767 / below 1 / below -32768 / unset / duplicate, duplicate names, literal beyond int64, enum value outside int32, integer constant or default outside its i8/i16/i32 type, an enum item beyond the i8/i16 it is used as, an auto-assigned identifier equal to an explicit negative one, bool other than 0/1, enum value that is no item or equals one only modulo 2^32, constant or service defined in terms of itself, also through struct / list / map literals of a recursive struct type); oracle: compiled numbers equal the source and lie in range, else rejected; compared with the Lean model; every case non-trivial; distinct by program. The shapes of the repaired findings D5 D6 D7 D8 D9 are ordinary planted defects and corpus entries; plus a probe built for GOARCH=386 and run under 32-bit emulation: numbers that do not fit a 32-bit int must be rejected, not truncated (D82, repaired)."
+	c.rep.Rule = "programs whose numeric literals sit around every type boundary (0, ±1, ±2^7, ±2^15, ±2^31, ±2^63 and neighbours; decimal, +signed, zero-padded decimal and hex spellings): field identifiers explicit / unset (auto-negative in non-strict mode), enum values explicit / implicit, integer constants and defaults of i8/i16/i32/i64/double/bool/enum types (also inside lists, maps, struct literals, through typedefs), strict and non-strict mode; 40% carry one planted defect the compiler must reject (identifier above 32767 / below 1 / below -32768 / unset / duplicate, duplicate names, literal beyond int64, enum value outside int32, integer constant or default outside its i8/i16/i32 type, an enum item beyond the i8/i16 it is used as, an auto-assigned identifier equal to an explicit negative one, a struct literal that gives a field twice, a default that is needed while it is being linked, bool other than 0/1, enum value that is no item or equals one only modulo 2^32, constant or service defined in terms of itself, also through struct / list / map literals of a recursive struct type); oracle: compiled numbers equal the source and lie in range, else rejected; compared with the Lean model; every case non-trivial; distinct by program. The shapes of the repaired findings D5 D6 D7 D8 D9 are ordinary planted defects and corpus entries; plus a probe built for GOARCH=386 and run under 32-bit emulation: numbers that do not fit a 32-bit int must be rejected, not truncated (D82, repaired)."
 }
 
 // constReaches: does the value of `from` mention (at any depth, through other constants of the
